@@ -602,9 +602,10 @@ def c06(ix: Index) -> None:
             ix.C['c06_entries'] += 1
         elif k == 'h_exit':
             running.pop(r['inv'], None)
-        elif k == 'aw_begin' and isinstance(r['by'], int):
+        elif k in ('aw_begin', 'step_begin') and isinstance(r['by'], int):
+            # (a handler that drives a bus by hand - `await bus.step()` - is suspended waiting for event processing it asked for)
             aw_depth[r['by']] += 1
-        elif k == 'aw_end' and isinstance(r['by'], int):
+        elif k in ('aw_end', 'step_end') and isinstance(r['by'], int):
             aw_depth[r['by']] -= 1
 
 
@@ -1060,7 +1061,15 @@ def c16(ix: Index) -> None:
     for r in ix.R:
         if r['k'] == 'rl_cancel_wait':
             ix.C['c16_runloop_cancels'] += 1
-            if not r['done']:
+            # bound: 1 virtual second plus what the handlers cancelled by it needed for their own (awaited) clean-up, nested ones adding up
+            c_rec = next((q for q in ix.R if q['seq'] == r.get('cancel_seq')), None)
+            slow = False
+            if r['done'] and c_rec is not None and r.get('waited', 1.0) > 1.0:
+                unwind = sum(float(ix.sc['handlers'][ix.inv[q['inv']]['h']].get('cleanup', 0) or 0) for q in ix.R
+                             if q['k'] == 'h_cancelled' and c_rec['seq'] < q['seq'] < r['seq'] and q['inv'] in ix.inv)
+                unwind += sum(_busy_len(ix, q) for q in ix.R if q['k'] == 'op' and q['op'] == 'busy' and c_rec['seq'] < q['seq'] < r['seq'])  # blocking user code
+                slow = r['vt'] - c_rec['vt'] > 1.0 + unwind + 1e-6
+            if not r['done'] or slow:
                 # F16: two sibling handlers of one event on a parallel_handlers bus were both inside an await when the cancellation
                 # arrived: it travels down one of the concurrent drains at a time while the others go on taking queue entries
                 mech = None
